@@ -215,8 +215,13 @@ def c07(c):
         log("[P] TLAPS PixelIndex: %d obligations, all proved=%s, %.1fs" % (n, ok, secs))
         if not ok:
             raise vlib.ToolError("the TLAPS proof spec/proofs/PixelIndex.tla does not check (a defect of the proof, not of the code)")
-        c.details["tlaps"] = {"module": "spec/proofs/PixelIndex.tla", "obligations": n, "discharged": n,
-                              "theorems": ["Injective (distinct pixels never share a bit, all sizes)", "InDataArea", "Padding"],
+        nw, okw, secsw = vlib.run_tlapm("WideArith")
+        log("[P] TLAPS WideArith: %d obligations, all proved=%s, %.1fs" % (nw, okw, secsw))
+        if not okw:
+            raise vlib.ToolError("the TLAPS proof spec/proofs/WideArith.tla does not check (a defect of the proof, not of the code)")
+        c.details["tlaps"] = {"modules": ["spec/proofs/PixelIndex.tla", "spec/proofs/WideArith.tla"], "obligations": n + nw, "discharged": n + nw,
+                              "theorems": ["Injective (distinct pixels never share a bit, all sizes)", "InDataArea", "Padding",
+                                           "ChunksOK / IndexOK (the two-limb forms used on pages of 4 GiB and more equal the plain definitions, all sizes)"],
                               "bound_to_model_by": "MC_Layout!SameDefs (the proved definitions equal Page.tla's on every size of the box)"}
     shards = 16 if c.tier == "thorough" else 6
     files, n, _ = vlib.record("C07", c.tier, c.seed, shards)
@@ -480,9 +485,11 @@ def extra(c):
     log("[P] TLAPS PixelIndex: %d obligations, all proved=%s, %.1fs" % (n, ok, secs))
     n2, ok2, secs2 = vlib.run_tlapm("LRCDetect")
     log("[P] TLAPS LRCDetect: %d obligations, all proved=%s, %.1fs" % (n2, ok2, secs2))
-    if not ok or not ok2:
+    n3, ok3, secs3 = vlib.run_tlapm("WideArith")
+    log("[P] TLAPS WideArith: %d obligations, all proved=%s, %.1fs" % (n3, ok3, secs3))
+    if not ok or not ok2 or not ok3:
         raise vlib.ToolError("TLAPS proof does not check")
-    c.details["tlaps"] = {"obligations": n + n2, "discharged": n + n2}
+    c.details["tlaps"] = {"obligations": n + n2 + n3, "discharged": n + n2 + n3}
     return c.finish("model_checking", "extras: two controllers sharing a bus; Display formats of frames/messages/pages validated against Display.tla; liveness of controller calls; TLAPS layout proof")
 
 
